@@ -35,7 +35,7 @@ def _flag_cases(ctx):
     # all small cases over a three-flag universe, then random ones
     small = [[], [b'\\Seen'], [b'$kw0'], [b'\\Seen', b'$kw0'], [b'\\Deleted'],
              [b'\\Seen', b'\\Deleted', b'$kw0']]
-    pairs = [(a, b) for a in small for b in small] + [(fs(), fs()) for _ in range(ctx.scale(150, 1500))]
+    pairs = [(a, b) for a in small for b in small] + [(fs(), fs()) for _ in range(ctx.scale(150, 600))]
     for a, b in pairs:
         for on, op in ops.items():
             r = op.apply(impl(a), impl(b))
@@ -43,7 +43,7 @@ def _flag_cases(ctx):
             ctx.count(('apply', on, tuple(a), tuple(b)))
     defs = [[b'\\Seen', b'\\Deleted'], [b'\\*'], [b'\\Seen', b'\\Recent'], [], R.SYS5,
             R.SYS5 + [b'$kw0'], [b'\\Recent']]
-    for d in defs + [fs() for _ in range(ctx.scale(30, 200))]:
+    for d in defs + [fs() for _ in range(ctx.scale(30, 80))]:
         for o in small + [fs() for _ in range(4)]:
             r = PermanentFlags(impl(d)).intersect(impl(o))
             it.append(T.pair(R.enc_fset(d), R.enc_fset(o), R.enc_fset(back(r))))
@@ -464,8 +464,8 @@ def run(ctx) -> None:
     ]
     ctx.check_proofs(['RefModel/Check'])
     _flag_cases(ctx)
-    nd = ctx.scale(360, 2400)
-    nm = ctx.scale(70, 400)
+    nd = ctx.scale(360, 1600)
+    nm = ctx.scale(70, 300)
     run_async(_keyword_tables(ctx))
     for kind in ('dict', 'maildir'):
         sc = scenarios(kind)
